@@ -25,6 +25,8 @@ open Rpyc.Proto.Life
 theorem obligation_dispatch_closes_on_eof : Gen.Proto.dispatchClosesOnEof = true := dispatch_closes_on_eof
 /-- boxing by reference on a closed channel raises EOFError and registers nothing -/
 theorem obligation_box_refuses_on_closed_channel : Gen.Proto.boxRefusesOnClosedChannel = true := box_refuses_on_closed_channel
+/-- `_cleanup` completes every request still waiting for its answer with EOFError (ready, an error, callbacks run) -/
+theorem obligation_cleanup_fails_pending : Gen.Proto.cleanupFailsPending = true := cleanup_fails_pending
 /-- a second `_cleanup` on the same connection returns quietly -/
 theorem obligation_cleanup_idempotent : Gen.Proto.cleanupIdempotent = true := cleanup_idempotent
 /-- when the stream's own close() raises (alone, with a raising disconnect hook, under close() with a raising
@@ -267,6 +269,23 @@ theorem blocked_waiter_next_serve_releases {l : Life} (h : Reach l) (_hc : l.cha
   obtain ⟨l', hs, hcl, _, _, hb⟩ := eof_in_serve_leads_to_closed h r
   obtain ⟨res, hv, hrel⟩ := blocked_are_released (.eofInServe r) hs (Or.inr (Or.inl ⟨r, rfl⟩))
   exact ⟨l', res, hs, hcl, hb, hv, hrel⟩
+
+/-- **no_hang (pending results: `ready` / `error` / callbacks).** On a side that reports closed (outside a `close()`
+call) every result is ready: the requests already resolved, and every request still waiting for its answer - `_cleanup`
+completed it with EOFError (obligation `cleanup_fails_pending`, measured), so `ar.ready` is True, `ar.error` is True, its
+`add_callback` functions have run, and `while not ar.ready:` ends.  (Own timeout not passed: an expired result stays
+"expired" by AsyncResult's own rule.) -/
+theorem pending_results_ready_after_end {l : Life} (h : Reach l) (hc : l.closed = true) (hi : l.inClose = false)
+    (s : Nat) : resultReady l s = true := by
+  have hcl : l.cleaned = true := h.inv.flags.done hc hi
+  simp [resultReady, resultReadyWith, completedByEndWith, hcl, cleanup_fails_pending]
+
+/-- the other behaviour (the code before the repair, `fails = false`): a request pending at a local close is never ready -
+the state in which `while not ar.ready:` spins for ever -/
+theorem unrepaired_pending_never_ready :
+    ∃ l, run Life.init [.issue 0 false, .closeBegin, .closeEnd .sent] = some l ∧ l.closed = true ∧ l.inClose = false
+      ∧ resultReadyWith false l 0 = false := by
+  refine ⟨_, rfl, ?_, ?_, ?_⟩ <;> decide
 
 /-- **no_hang (pending requests).** After the end, waiting for a request that was pending returns at once:
 with EOFError, or its own timeout if that has passed, (or the raising hook's exception) — never a value,
